@@ -335,6 +335,10 @@ func (x *Exec) havocSame(fr *frame, a, b *State, m Clause, opts *evalOpts) {
 			bail("%v", err)
 		}
 		v := x.evalExpr(fr, a, e, opts)
+		if _, isAgg := v.(Agg); isAgg {
+			// a struct-valued variable or field: compare it through its address
+			v = x.evalLValue(fr, a, e, opts)
+		}
 		switch p := v.(type) {
 		case Ptr:
 			cur := x.load(a, p)
